@@ -69,6 +69,12 @@ type Engine struct {
 	rawSMT [][2]string
 	extFuncs map[string]string
 	structCount int
+	faddrDone bool
+	feasN int
+	signalChecked int
+	globalConst map[string]string
+	errGlobals []string
+	allFuncs map[*ssa.Function]bool
 	litOf map[string]string
 	evalExt map[string]map[string]bool
 	evalSym map[string]string
@@ -422,6 +428,12 @@ func (e *Engine) needBytes() {
 	ax("blen_cat", "(forall ((a Bytes) (b Bytes)) (! (= (blen (bcat a b)) (+ (blen a) (blen b))) :pattern ((bcat a b))))")
 	ax("blen_take", "(forall ((a Bytes) (n Int)) (! (=> (and (<= 0 n) (<= n (blen a))) (= (blen (btake a n)) n)) :pattern ((btake a n))))")
 	ax("blen_drop", "(forall ((a Bytes) (n Int)) (! (=> (and (<= 0 n) (<= n (blen a))) (= (blen (bdrop a n)) (- (blen a) n))) :pattern ((bdrop a n))))")
+	ax("cat_assoc", "(forall ((a Bytes) (b Bytes) (c Bytes)) (! (= (bcat (bcat a b) c) (bcat a (bcat b c))) :pattern ((bcat (bcat a b) c)) :pattern ((bcat a (bcat b c)))))")
+	ax("cat_empty_r", "(forall ((a Bytes)) (! (= (bcat a bempty) a) :pattern ((bcat a bempty))))")
+	ax("cat_empty_l", "(forall ((a Bytes)) (! (= (bcat bempty a) a) :pattern ((bcat bempty a))))")
+	ax("take_zero", "(forall ((a Bytes)) (! (= (btake a 0) bempty) :pattern ((btake a 0))))")
+	ax("take_all", "(forall ((a Bytes)) (! (= (btake a (blen a)) a) :pattern ((btake a (blen a)))))")
+	ax("blen_zero", "(forall ((a Bytes)) (! (=> (= (blen a) 0) (= a bempty)) :pattern ((blen a))))")
 	ax("take_cat", "(forall ((a Bytes) (b Bytes)) (! (= (btake (bcat a b) (blen a)) a) :pattern ((bcat a b))))")
 	ax("drop_cat", "(forall ((a Bytes) (b Bytes)) (! (= (bdrop (bcat a b) (blen a)) b) :pattern ((bcat a b))))")
 	ax("cat_take_drop", "(forall ((a Bytes) (n Int)) (! (=> (and (<= 0 n) (<= n (blen a))) (= (bcat (btake a n) (bdrop a n)) a)) :pattern ((btake a n)) :pattern ((bdrop a n))))")
